@@ -1,6 +1,6 @@
 //verif:package github.com/kstenerud/go-concise-encoding/internal/verifh/c03
 //verif:config cap=300 steps=400000000 paths=20000 timeout=120000 maxsec=1800
-//verif:bounds conversions through the real codecs (CBE decoder, CTE encoder, CTE decoder = ANTLR lexer/parser/listener executed by the engine, CBE encoder), each behind the real validator. CBE->CTE->CBE: CBE documents of 13 templates with an 8-bit symbolic payload (quick: boundary values) - integers, strings with a character of a 12-character set, typed arrays, nested containers, markers/references, records, nodes, edges, media and custom binary whole and in two chunks, UID, NaN, floats, times - and (thorough) raw CBE documents signature+version+1..2 symbolic bytes that the CBE decoder accepts. CTE->CBE: 8 CTE text templates (comments, all container kinds, typed arrays in the 3 bases, escapes, markers, records) with one symbolic digit or letter
+//verif:bounds conversions through the real codecs (CBE decoder, CTE encoder, CTE decoder = ANTLR lexer/parser/listener executed by the engine, CBE encoder), each behind the real validator. CBE->CTE->CBE: CBE documents of 13 templates with an 8-bit symbolic payload (quick: 10 boundary values, thorough: 72 values around the boundaries) - integers, strings with a character of a 12-character set, typed arrays, nested containers, markers/references, records, nodes, edges, media and custom binary whole and in two chunks, UID, NaN, floats, times - and (thorough) raw CBE documents that the CBE decoder accepts: signature+version+1 symbolic byte, and a list holding 1 symbolic byte. CTE->CBE: 8 CTE text templates (comments, all container kinds, typed arrays in the 3 bases, escapes, markers, records) with one symbolic digit or letter
 //verif:assume every symbolic character reaches the lexer's table lookups, where the engine enumerates its feasible values (one path per value), so the bounds are small; custom text is excluded from CTE->CBE as the statement says; area/location time zones are not generated; "the same data": integers by value, arrays joined, padding and (towards CBE) comments dropped
 package c03
 
@@ -147,6 +147,8 @@ func Verif_C03_CBEDocuments() {
 	v := uint64(verifrt.U8("v"))
 	if !verifrt.Thorough() {
 		verifrt.Assume(v < 3 || v == 9 || v == 10 || v == 99 || v == 100 || v == 127 || v == 128 || v >= 254)
+	} else {
+		verifrt.Assume(v < 24 || (v >= 96 && v < 136) || v >= 248) // thorough: 72 values around every digit-count and sign boundary
 	}
 	c := ""
 	timeVariant := 0
@@ -283,8 +285,15 @@ func Verif_C03_CBEDocuments() {
 // Raw CBE documents: signature, version, then 1..2 fully symbolic bytes; those
 // the CBE decoder and the validator accept must convert. Thorough tier only.
 func Verif_T_C03_RawCBEDocuments() {
-	n := verifrt.Choice("bytes", 2) + 1
-	doc := append([]byte{0x81, 0x00}, verifrt.Bytes("d", n)...)
+	// one free byte (every one-byte value: small integers, null, booleans, empty
+	// containers...) and two free bytes where the first opens a list (0x9a): each
+	// accepted document costs three ANTLR parses
+	d := verifrt.Bytes("d", 2)
+	doc := []byte{0x81, 0x00, d[0]}
+	if verifrt.Choice("bytes", 2) == 1 {
+		verifrt.Assume(d[0] == 0x9a)
+		doc = append(doc, d[1], 0x9b)
+	}
 	cbeToCTEToCBE(doc)
 }
 
